@@ -120,8 +120,25 @@ def _edit(rng, spec, built, g):
     from adsg_core.graph.adsg_basic import ChoiceConstraintType
     from adsg_core.graph.adsg_nodes import SelectionChoiceNode
     c = g.copy()
-    kind = rng.choice(['add_node', 'add_edge', 'remove_node', 'remove_edge', 'start', 'constraint'])
+    kind = rng.choice(['add_node', 'add_edge', 'remove_node', 'remove_edge', 'start', 'constraint', 'typed_edge',
+                       'remove_start'])
     nodes = [n for n in c.graph.nodes]
+    if kind == 'typed_edge' and len(nodes) >= 2:
+        # an edge of another type between two existing nodes - also parallel to an edge they already share
+        from adsg_core.graph.graph_edges import EdgeType
+        pairs = [(u, v) for u, v in c.graph.edges()]
+        a, b = rng.choice(pairs) if pairs and rng.random() < .6 else rng.sample(nodes, 2)
+        et = rng.choice([EdgeType.CONNECTS, EdgeType.EXCLUDES, EdgeType.INCOMPATIBILITY, EdgeType.DERIVES])
+        n_before = c.graph.number_of_edges()
+        c.add_edge(a, b, edge_type=et)
+        if c.graph.number_of_edges() == n_before + 1:
+            return c, f'edge {gen_dsg.label(a)}->{gen_dsg.label(b)} of type {et.name} added-typed'
+        c = g.copy()
+    if kind == 'remove_start' and c.derivation_start_nodes and len(c.derivation_start_nodes) >= 2:
+        c2 = c.get_for_adjusted(inplace=False)
+        drop = rng.choice(sorted(c.derivation_start_nodes, key=gen_dsg.label))
+        c2._start_nodes = set(c.derivation_start_nodes) - {drop}
+        return c2, 'start node removed'
     if kind == 'add_node':
         c.graph.add_node(NamedNode('Xnew'))
         return c, 'node added'
@@ -197,6 +214,9 @@ def _instance_edits(p, vec_seed, stats):
             e = g.copy()
             e.graph.remove_edge(u, v, min(ks))
             stats['probe:parallel_edge_removed'] += 1
+            if e == g or hash(e) == hash(g) or g == e:
+                raise Viol('C18/edit-still-equal', f'instance decoded from {x}: after losing one of {len(ks)} parallel '
+                                                   f'connection edges it is still equal to (or hashes like) the original')
             _copy_laws(e, f'instance decoded from {x} after losing the first of {len(ks)} parallel connection edges')
 
 
